@@ -6,7 +6,7 @@ import NriModel.Lemmas.ResultUpdates
 import NriModel.Overlay
 
 namespace Nri.Result
-open Nri.Api Nri.Ledger Nri.Overlay
+open Nri.NApi Nri.Ledger Nri.Overlay
 
 theorem isMarked_unmarked (k : Str) (h : (isMarked k).2 = false) : (isMarked k).1 = k := by
   unfold isMarked at *
@@ -52,7 +52,7 @@ theorem filter_map_comm {α : Type} (l : List α) (f : α → Str) :
 end Nri.Result
 
 namespace Nri.Result
-open Nri.Api Nri.Ledger Nri.Overlay
+open Nri.NApi Nri.Ledger Nri.Overlay
 
 /-- the view after one plugin's adjustment is the NRI-level overlay of that adjustment on the
     view the plugin was shown -/
@@ -73,7 +73,7 @@ theorem adjustData_view (st : State) (a : Adjustment) :
 end Nri.Result
 
 namespace Nri.Result
-open Nri.Api Nri.Ledger Nri.Overlay
+open Nri.NApi Nri.Ledger Nri.Overlay
 
 theorem getUpdate_view (q st st1 p u) (h : getUpdate q st p u = .ok st1) :
     st1.view = st.view ∧ st1.reqRes = st.reqRes ∧ st1.reply = st.reply := by
